@@ -733,6 +733,7 @@ class Engine(object):
     table = self.tables[table_id]
     col = table.get_column(col_id)
     checkpoint = self._get_undo_checkpoint()
+    auto_removes = self.docmodel.get_auto_removes()
     # Makes calls to REQUEST synchronous, since raising a RequestingError can't work here.
     self._sync_request = True
     try:
@@ -743,6 +744,9 @@ class Engine(object):
       # processed (e.g. don't get applied to DocStorage), so it's important to reverse them.
       self._sync_request = False
       self._undo_to_checkpoint(checkpoint)
+      # Marking records for auto-removal (as a summary table's `group` formula does) is a side
+      # effect too; with record_attributes, it would even mark a wrapper rather than a Record.
+      self.docmodel.set_auto_removes(auto_removes)
 
   def _recompute(self, node, row_ids=None):
     """
